@@ -127,6 +127,18 @@ class ColumnBackend(ArraySchemaBackend):
                     )
                 except SchemaErrors as exc:
                     error_handler.collect_errors(exc.schema_errors)
+                if pd.notna(schema.default):
+                    # coercion can itself produce nulls ("nan" -> NaN)
+                    try:
+                        check_obj[column_name] = self.fill_default(
+                            check_obj[column_name], schema
+                        )
+                    except SchemaError as exc:
+                        error_handler.collect_error(
+                            validation_type(exc.reason_code),
+                            exc.reason_code,
+                            exc,
+                        )
 
             if is_table(check_obj[column_name]):
                 for i in range(check_obj[column_name].shape[1]):
